@@ -59,6 +59,13 @@ func (c Const) Validate(v bytes.Bytes) {
 		return
 	}
 
+	if v.InQuotes() && c.nodeValue.InQuotes() {
+		// Strings are equal when their decoded values are: "a" and "\u0061".
+		if v.Unquote().String() == c.nodeValue.Unquote().String() {
+			return
+		}
+	}
+
 	if v.String() != c.nodeValue.String() {
 		panic(errors.Format(errors.ErrInvalidConst, c.nodeValue.String()))
 	}
